@@ -6,6 +6,7 @@
 #include <limits.h>
 #include <string.h>
 #include <float.h>
+#include <math.h>
 #include <errno.h>
 
 #include "convert.h"
@@ -143,7 +144,8 @@ static int parseRange(const char *from, MPT_STRUCT(range) *r)
 extern MPT_INTERFACE(metatype) *mpt_iterator_linear(uint32_t len, double start, double end)
 {
 	MPT_STRUCT(iteratorLinear) *data;
-	if (len < 2) {
+	/* bounds and their distance must be finite numbers */
+	if (len < 2 || !isfinite(start) || !isfinite(end) || !isfinite(end - start)) {
 		errno = EINVAL;
 		return 0;
 	}
@@ -282,7 +284,8 @@ extern MPT_INTERFACE(metatype) *_mpt_iterator_range(MPT_STRUCT(value) *val)
 			return 0;
 		}
 		
-		if (!(step > 0)
+		if (!isfinite(r.max - r.min)
+		  || !(step > 0)
 		  || step > (r.max - r.min)
 		  || step < (r.max - r.min) * 1e-6) {
 			errno = ERANGE;
